@@ -15,16 +15,16 @@ variable {V : Type}
 structure WF (C : Cls) : Prop where
   nameMem    : ∀ f ∈ C.fields, f.name ∈ f.aliases
   attMem     : ∀ f ∈ C.fields, f.attname ∈ f.aliases
-  /-- base.py:277-325: a key resolves to at most one field -/
+  /-- base.py:291-346 `generate_aliases`: a key resolves to at most one field -/
   disjoint   : ∀ f ∈ C.fields, ∀ g ∈ C.fields, ∀ k, k ∈ f.aliases → k ∈ g.aliases → f = g
-  /-- fragment: getter-only properties (field.py:1201-1205) -/
+  /-- fragment: getter-only properties (field.py:1239-1243) -/
   propPlain  : ∀ p ∈ C.fields, p.isProp = true →
                  p.required = false ∧ p.immutable = false ∧ p.noOutput = false ∧ p.dependants = []
   /-- fragment: properties are computed from declared non-property fields -/
   depsPlain  : ∀ p ∈ C.fields, p.isProp = true → ∀ d ∈ p.deps, ∃ f ∈ C.fields, f.name = d ∧ f.isProp = false
-  /-- field.py:702-727 `apply_fields`: a dependency knows its dependants -/
+  /-- field.py:691-744 `apply_fields`: a dependency knows its dependants -/
   depsListed : ∀ p ∈ C.fields, p.isProp = true → ∀ f ∈ C.fields, f.name ∈ p.deps → p.name ∈ f.dependants
-  /-- dependants are recorded by field name (field.py:680-683, 721) -/
+  /-- dependants are recorded by field name (field.py:686-689, 733) -/
   depNames   : ∀ f ∈ C.fields, ∀ q ∈ f.dependants, ∀ p, getField C q = some p → p.name = q
 
 theorem getField_some {C : Cls} {k : String} {f : Field} (h : getField C k = some f) :
@@ -161,7 +161,7 @@ def removalTarget (C : Cls) (s : State V) : Op V → Option Field
   | _ => none
 
 /-- `KnownDefect`: the operation removes a present field while a property computed from it stays stored
-(schema.py:373-399, 422-445 recompute nothing) -/
+(schema.py:394-420, 443-466 recompute nothing) -/
 def knownDefect (C : Cls) (s : State V) (op : Op V) : Bool :=
   match removalTarget C s op with
   | some f =>
